@@ -152,7 +152,7 @@ def install_spy(env: Env):
 
         def init(self, *a, **k):
             if env.spy is not None and type(self).__name__ in NODE_CLASSES:
-                env.spy.append((type(self).__name__, k.get("out_variadic")))
+                env.spy.append((type(self).__name__, k.get("out_variadic", "unobservable")))
             return orig(self, *a, **k)
 
         init._c19_spy = True
@@ -554,7 +554,7 @@ def judge(case, obs):
         got_n = [ov for cls, ov in obs["spy"] if NODE_CLASSES.get(cls) == ctor]
         cont = case["cbs"][src].get("container", "list")
         tag = ":one-shot-iterable" if cont in ("gen", "map") else ""
-        if got_n and got_n[-1] != want_n:
+        if got_n and isinstance(got_n[-1], int) and got_n[-1] != want_n:
             bad.append((f"{ctor}:out-count{tag}", f"callback returned {case['cbs'][src]['n']} Vars, node created with out_variadic={got_n[-1]} (expected {want_n})"))
         elif res[0] == "ok" and res[1] != want_n:
             bad.append((f"{ctor}:out-count{tag}", f"callback returned {case['cbs'][src]['n']} Vars, constructor returned {res[1]} outputs (expected {want_n})"))
@@ -619,8 +619,11 @@ def compare(case, obs, m, steps):
         if obs["stage"] == "pre":
             return f"model returns {mr['ok']} outputs, real raised before creating the node: {res}"
         ov = [o for cls, o in obs["spy"] if NODE_CLASSES.get(cls) == case["ctor"]]
-        if obs.get("spy_ok") and (not ov or ov[-1] != mr["ok"]):
-            return f"model out_variadic {mr['ok']}, real node got {ov}"
+        if obs.get("spy_ok"):
+            if not ov or not isinstance(ov[-1], int):
+                return f"out_variadic handed to the node not observable (saw {ov})"
+            if ov[-1] != mr["ok"]:
+                return f"model out_variadic {mr['ok']}, real node got {ov}"
         if res[0] == "ok" and res[1] != mr["ok"]:
             return f"model {mr['ok']} outputs, real {res[1]}"
     if obs.get("stored"):
